@@ -137,14 +137,16 @@ def keyword_name(x: Any) -> Any:
 
 
 EOL = re.compile(rb"[\r\n]")
-SPC = re.compile(rb"\s")
-NONSPC = re.compile(rb"\S")
+# White-space characters of PDF 32000-1 7.2.2, Table 1: NUL, HT, LF, FF, CR, SP
+# (unlike Python's \s this includes NUL and excludes VT).
+SPC = re.compile(rb"[\x00\t\n\f\r ]")
+NONSPC = re.compile(rb"[^\x00\t\n\f\r ]")
 HEX = re.compile(rb"[0-9a-fA-F]")
-END_LITERAL = re.compile(rb"[#/%\[\]()<>{}\s]")
-END_HEX_STRING = re.compile(rb"[^\s0-9a-fA-F]")
+END_LITERAL = re.compile(rb"[#/%\[\]()<>{}\x00\t\n\f\r ]")
+END_HEX_STRING = re.compile(rb"[^\x00\t\n\f\r 0-9a-fA-F]")
 HEX_PAIR = re.compile(rb"[0-9a-fA-F]{2}|.")
 END_NUMBER = re.compile(rb"[^0-9]")
-END_KEYWORD = re.compile(rb"[#/%\[\]()<>{}\s]")
+END_KEYWORD = re.compile(rb"[#/%\[\]()<>{}\x00\t\n\f\r ]")
 END_STRING = re.compile(rb"[()\134]")
 OCT_STRING = re.compile(rb"[0-7]")
 ESC_STRING = {
